@@ -20,6 +20,7 @@ import VrlModel.Driver.C21
 import VrlModel.Driver.C19
 import VrlModel.Driver.C32
 import VrlModel.Driver.C33
+import VrlModel.Driver.TypeInfo
 
 /-- Line protocol driver: one case per line `op <tab> arg…`, one reply line per case. -/
 def handlers : List (String → List String → Option String) := [
@@ -44,7 +45,8 @@ def handlers : List (String → List String → Option String) := [
   Driver.C21.handle,
   Driver.C19.handle,
   Driver.C32.handle,
-  Driver.C33.handle
+  Driver.C33.handle,
+  Driver.TypeInfo.handle
 ]
 
 def dispatch (op : String) (args : List String) : String :=
